@@ -156,6 +156,7 @@ def run(ctx, rep):
             b = cands[0]
             cs = _calls(b, lambda n, t: n == strip_generics(CC + pre + m))
             rep.add("B1", "wrapper:%s%s" % (pre, m), len(cs) == 1, "%s:%s" % (b.file, b.line), "trait method forwards to the context's %s%s exactly once" % (pre, m))
+    b3(F, rep)
     # ---- B2 ---------------------------------------------------------------------------------------
     for en in ("CodecCorrection", "CodecMisprediction"):
         a = F.adts.get("preflate_rs::statistical_codec::" + en)
@@ -182,6 +183,93 @@ def run(ctx, rep):
         rep.add("B2", "value/mantissa arrays same shape", ft.get("correction") == ft.get("correction_bits") and ft.get("default_encoding") == ft.get("default_encoding_nbits"), "", str(ft))
     else:
         rep.missing("B2", "PredictionCabacContext")
+
+
+def _index_enum(U, b, op):
+    p = op_place(op)
+    hops = 0
+    while p is not None and not p["p"] and hops < 6:
+        hops += 1
+        d = b.single_def(p["l"])
+        if not d or d[2] != "assign":
+            return None
+        r = d[3]
+        if r["k"] == "cast":
+            src = op_place(r["op"])
+            if src is None:
+                return None
+            ty = U.place_type(b, src)
+            if ty and not re.match(r"^[ui](8|16|32|64|size)$", ty):
+                return ty
+            p = src
+        elif r["k"] == "use":
+            p = op_place(r["op"])
+        elif r["k"] == "discr":
+            return U.place_type(b, r["place"])
+        else:
+            return None
+    return None
+
+
+def _variant_only_counted(F, ety, vname):
+    """The variant is a count marker: every place it is constructed, the value only feeds an integer cast."""
+    n = 0
+    for name, b in list(F.bodies.items()) + list(F.const_bodies.items()):
+        for bb in range(b.n):
+            for s in b.stmts(bb):
+                r = s.get("r") or {}
+                if s.get("k") == "assign" and r.get("k") == "agg" and r.get("adt") == ety and r.get("vname") == vname:
+                    n += 1
+                    if s["p"]["p"]:
+                        return False, "is stored into a field in %s" % name
+                    for u in flow.uses(b, s["p"]["l"]):
+                        kind = u[0] if isinstance(u, (list, tuple)) else None
+                        st = u[-1] if isinstance(u, (list, tuple)) else u
+                        rr = st.get("r") if isinstance(st, dict) else None
+                        if not (isinstance(rr, dict) and rr.get("k") in ("cast", "discr")) and not (isinstance(st, dict) and st.get("k") in ("storage", "drop")):
+                            return False, "is used as a value in %s" % name.replace("preflate_rs::", "")
+    return True, "is only ever cast to an integer (%d site(s))" % n
+
+
+def b3(F, rep):
+    """No operation sequence can make the codec panic on an array index: every bounds check the compiler inserted in the
+    codec modules (context arrays, statistics counters) has an index whose inferred upper bound is below the array length
+    (enum discriminants, constants, min/mask-limited values — pfa/ub.py)."""
+    from ..ub import UB
+    from ..facts import op_const, const_int
+    U = UB(F)
+    n = 0
+    per = {}
+    for name, b in sorted(F.bodies.items()):
+        if not re.match(r"^(<)?preflate_rs::(cabac_codec|statistical_codec)::", name.replace("<", "", 1) if name.startswith("<") else name) and \
+           "preflate_rs::cabac_codec::" not in name and "preflate_rs::statistical_codec::" not in name:
+            continue
+        for bb in sorted(b.normal_blocks()):
+            t = b.term(bb)
+            if t["k"] != "assert" or t.get("msg") != "BoundsCheck":
+                continue
+            n += 1
+            ln = const_int(op_const(t["ops"][0])) if op_const(t["ops"][0]) else None
+            ub = U.operand(b, t["ops"][1], at=bb)
+            short = name.replace("preflate_rs::", "")
+            k = per.get(short, 0)
+            per[short] = k + 1
+            ok = ln is not None and ub is not None and ub < ln
+            note = ""
+            if not ok and ln is not None and ub == ln:
+                # `[T; Enum::MAX as usize]` indexed by `e as usize`: in bounds as long as MAX itself is never used as a value
+                ety = _index_enum(U, b, t["ops"][1])
+                a = F.adts.get(ety) if ety else None
+                if a and a.get("kind") == "enum":
+                    mx = [v for v in a["variants"] if v["name"] == "MAX"]
+                    rest = [v["discr"] for v in a["variants"] if v["name"] != "MAX"]
+                    if len(mx) == 1 and mx[0]["discr"] == ub and rest and max(rest) < ln:
+                        unused, why = _variant_only_counted(F, ety, "MAX")
+                        ok = unused
+                        note = "; %s::MAX %s" % (ety.split("::")[-1], why)
+            rep.add("B3", "index-in-bounds:%s#%d" % (short, k), ok, b.where(bb),
+                    "index %s has upper bound %s, array length %s%s" % (flow.describe(b, t["ops"][1]), ub, ln if ln is not None else "not a constant", note))
+    rep.floor("B3", "bounds-checks-in-codec", n, 11)
 
 
 def _before(b, bb):
